@@ -45,6 +45,8 @@ struct Planted {
     n: usize,
     constrained: bool,
     indexed: bool,
+    /// a statement that must succeed after the failed one (a value the failed row must have released)
+    after: Option<String>,
 }
 
 fn s(v: &str) -> Ex {
@@ -90,7 +92,7 @@ fn gen_case(rng: &mut Rng, n: usize, pos: usize, which: u64) -> Planted {
         0 | 1 => {
             let kind = if which == 0 { Kind::Div0 } else { Kind::Type };
             let st = St { cls: vec![Cl::Unwind(Ex::List(poisoned_list(rng, n, pos, kind)), 0), Cl::Create(vec![CPath { a: NPat { props: vec![(0, fallible(kind)), (1, Ex::Var(0))], ..l1.clone() }, seg: None }])], ret: None };
-            Planted { setup, st, clause: "create", kind, pos, n, constrained: false, indexed }
+            Planted { setup, st, clause: "create", kind, pos, n, constrained: false, indexed, after: None }
         }
         // CREATE path, failure in the relationship property
         2 => {
@@ -101,13 +103,13 @@ fn gen_case(rng: &mut Rng, n: usize, pos: usize, which: u64) -> Planted {
                 ],
                 ret: None,
             };
-            Planted { setup, st, clause: "createpath", kind: Kind::Div0, pos, n, constrained: false, indexed }
+            Planted { setup, st, clause: "createpath", kind: Kind::Div0, pos, n, constrained: false, indexed, after: None }
         }
         // MERGE
         3 | 4 => {
             let kind = if which == 3 { Kind::Div0 } else { Kind::Type };
             let st = St { cls: vec![Cl::Unwind(Ex::List(poisoned_list(rng, n, pos, kind)), 0), Cl::Merge(NPat { props: vec![(0, fallible(kind))], ..l1.clone() }, vec![], vec![])], ret: None };
-            Planted { setup, st, clause: "merge", kind, pos, n, constrained: false, indexed }
+            Planted { setup, st, clause: "merge", kind, pos, n, constrained: false, indexed, after: None }
         }
         // SET on one matched node per row
         5 | 6 => {
@@ -123,7 +125,7 @@ fn gen_case(rng: &mut Rng, n: usize, pos: usize, which: u64) -> Planted {
                 cls: vec![Cl::Unwind(Ex::List(rows), 0), Cl::MatchN(1, vec![1], vec![]), Cl::Filter(bin("eq", Ex::Prop(1, 2), Ex::Prop(0, 0))), Cl::Set(vec![SetItem::Prop(1, 0, rhs)])],
                 ret: None,
             };
-            Planted { setup, st, clause: "set", kind, pos, n, constrained: false, indexed }
+            Planted { setup, st, clause: "set", kind, pos, n, constrained: false, indexed, after: None }
         }
         // duplicate value under a unique constraint: CREATE
         7 => {
@@ -135,7 +137,7 @@ fn gen_case(rng: &mut Rng, n: usize, pos: usize, which: u64) -> Planted {
                 vals[pos] = vals[rng.usize(pos)];
             }
             let st = St { cls: vec![Cl::Unwind(Ex::List(vals.iter().map(|v| int(*v)).collect()), 0), Cl::Create(vec![CPath { a: NPat { var: Some(1), labels: vec![0], props: vec![(0, Ex::Var(0))] }, seg: None }])], ret: None };
-            Planted { setup, st, clause: "create", kind: Kind::Dup, pos, n, constrained: true, indexed }
+            Planted { setup, st, clause: "create", kind: Kind::Dup, pos, n, constrained: true, indexed, after: None }
         }
         // duplicate value under a unique constraint: SET
         8 => {
@@ -155,7 +157,76 @@ fn gen_case(rng: &mut Rng, n: usize, pos: usize, which: u64) -> Planted {
                 ],
                 ret: None,
             };
-            Planted { setup, st, clause: "set", kind: Kind::Dup, pos, n, constrained: true, indexed }
+            Planted { setup, st, clause: "set", kind: Kind::Dup, pos, n, constrained: true, indexed, after: None }
+        }
+        // --- round 2: shapes a small edit of the write operators' clean-up could break unseen
+        // bound start node, new end node, failure in the relationship property (after the end node was built)
+        10 => {
+            let vals: Vec<i64> = (0..n as i64).map(|i| 80 + i).collect();
+            for v in &vals {
+                setup.push(format!("CREATE (:L1 {{k0: {}, k2: {}}})", v, v));
+            }
+            let rows: Vec<Ex> = (0..n).map(|i| Ex::Map(vec![(0, int(vals[i])), (1, if i == pos { int(0) } else { int(rng.range(1, 4)) })])).collect();
+            let st = St {
+                cls: vec![
+                    Cl::Unwind(Ex::List(rows), 0),
+                    Cl::MatchN(1, vec![1], vec![]),
+                    Cl::Filter(bin("eq", Ex::Prop(1, 2), Ex::Prop(0, 0))),
+                    Cl::Create(vec![CPath { a: NPat { var: Some(1), labels: vec![], props: vec![] }, seg: Some((1, vec![(1, bin("div", int(12), Ex::Prop(0, 1)))], true, NPat { var: Some(2), labels: vec![2], props: vec![(0, Ex::Prop(0, 0))] })) }]),
+                ],
+                ret: None,
+            };
+            Planted { setup, st, clause: "createfrommatch", kind: Kind::Div0, pos, n, constrained: false, indexed, after: None }
+        }
+        // two patterns in one CREATE, the second one fails (the first pattern's node must go too)
+        11 => {
+            let st = St {
+                cls: vec![
+                    Cl::Unwind(Ex::List(poisoned_list(rng, n, pos, Kind::Div0)), 0),
+                    Cl::Create(vec![CPath { a: NPat { props: vec![(0, Ex::Var(0))], ..l1.clone() }, seg: None }, CPath { a: NPat { var: Some(2), labels: vec![1], props: vec![(0, fallible(Kind::Div0))] }, seg: None }]),
+                ],
+                ret: None,
+            };
+            Planted { setup, st, clause: "create2", kind: Kind::Div0, pos, n, constrained: false, indexed, after: None }
+        }
+        // MERGE whose ON CREATE SET fails after the node was created
+        12 => {
+            let st = St { cls: vec![Cl::Unwind(Ex::List(poisoned_list(rng, n, pos, Kind::Div0)), 0), Cl::Merge(NPat { props: vec![(0, bin("add", Ex::Var(0), int(100 + pos as i64 * 10 + n as i64)))], ..l1.clone() }, vec![SetItem::Prop(1, 1, fallible(Kind::Div0))], vec![])], ret: None };
+            Planted { setup, st, clause: "mergeoncreate", kind: Kind::Div0, pos, n, constrained: false, indexed, after: None }
+        }
+        // SET with two items, the second violates the unique constraint after the first was applied
+        13 => {
+            setup.push("CREATE CONSTRAINT ON (n:L0) ASSERT n.k0 IS UNIQUE".into());
+            setup.push("CREATE (:L0 {k0: 99})".into());
+            let vals: Vec<i64> = (0..n as i64).map(|i| 40 + i).collect();
+            for v in &vals {
+                setup.push(format!("CREATE (:L0 {{k0: {}, k2: {}}})", v, v));
+            }
+            let rows: Vec<Ex> = (0..n).map(|i| Ex::Map(vec![(0, int(vals[i])), (1, if i == pos { int(99) } else { int(50 + i as i64) })])).collect();
+            let st = St {
+                cls: vec![
+                    Cl::Unwind(Ex::List(rows), 0),
+                    Cl::MatchN(1, vec![0], vec![]),
+                    Cl::Filter(bin("eq", Ex::Prop(1, 2), Ex::Prop(0, 0))),
+                    Cl::Set(vec![SetItem::Prop(1, 1, int(5)), SetItem::Prop(1, 0, Ex::Prop(0, 1))]),
+                ],
+                ret: None,
+            };
+            Planted { setup, st, clause: "set2", kind: Kind::Dup, pos, n, constrained: true, indexed, after: None }
+        }
+        // created path with constrained node values, failure afterwards in the relationship property:
+        // the taken-back nodes must also release their unique values (probed after the statement)
+        14 => {
+            setup.push("CREATE CONSTRAINT ON (n:L0) ASSERT n.k0 IS UNIQUE".into());
+            let rows: Vec<Ex> = (0..n).map(|i| Ex::Map(vec![(0, int(70 + i as i64)), (1, if i == pos { int(0) } else { int(rng.range(1, 4)) })])).collect();
+            let st = St {
+                cls: vec![
+                    Cl::Unwind(Ex::List(rows), 0),
+                    Cl::Create(vec![CPath { a: NPat { var: Some(1), labels: vec![0], props: vec![(0, Ex::Prop(0, 0))] }, seg: Some((1, vec![(1, bin("div", int(12), Ex::Prop(0, 1)))], true, NPat { var: Some(2), labels: vec![2], props: vec![] })) }]),
+                ],
+                ret: None,
+            };
+            Planted { setup, st, clause: "createpath-constrained", kind: Kind::Div0, pos, n, constrained: true, indexed, after: Some(format!("CREATE (:L0 {{k0: {}}})", 70 + pos)) }
         }
         // DELETE of a connected node at row `pos`
         _ => {
@@ -172,7 +243,7 @@ fn gen_case(rng: &mut Rng, n: usize, pos: usize, which: u64) -> Planted {
                 ret: None,
             };
             let _ = constrained;
-            Planted { setup, st, clause: "delete", kind: Kind::Connected, pos, n, constrained: false, indexed }
+            Planted { setup, st, clause: "delete", kind: Kind::Connected, pos, n, constrained: false, indexed, after: None }
         }
     }
 }
@@ -223,7 +294,14 @@ fn run_case(p: Planted) -> Done {
     let o = exec(&mut store, &text, None);
     let post = dump(&store);
     let cons_post = constraints(&mut store);
-    let probe = parse_dump(&post).and_then(|d| index_probe(&mut store, &d));
+    let mut probe = parse_dump(&post).and_then(|d| index_probe(&mut store, &d));
+    if probe.is_none() && o.rows.is_err() {
+        if let Some(a) = &p.after {
+            if let Err((_, m)) = exec(&mut store, a, None).rows {
+                probe = Some(format!("`{}` after the failed statement is refused: {}", a, m));
+            }
+        }
+    }
     let out = match &o.rows {
         Ok(rows) => Ok(rows_text(rows)),
         Err((k, _)) => Err(k.tag().to_string()),
@@ -312,7 +390,7 @@ fn main() {
         let mut rng = Rng::new(vharness::util::fnv(&format!("c05-{}", args.seed)));
         let reps = if args.thorough() { 40 } else { 6 };
         for _ in 0..reps {
-            for which in 0..10u64 {
+            for which in 0..15u64 {
                 for n in 1..=4usize {
                     for pos in 0..n {
                         let d = run_case(gen_case(&mut rng, n, pos, which));
@@ -336,7 +414,7 @@ fn main() {
             }
         }
         rep.exhaustive = true;
-        rep.exhaustive_note = "every (write shape of 10) x (1..4 input rows) x (failing row position) is planted in each repetition; the non-failing row values are random".into();
+        rep.exhaustive_note = "every (write shape of 15) x (1..4 input rows) x (failing row position) is planted in each repetition; the non-failing row values are random".into();
     }
 
     let mut lines = vec![];
